@@ -19,6 +19,10 @@ HDR = "From BV Require Import Lib.Regex Lib.Calendar Model.V2 Model.Pep440 Model
 PARTS_BY_LEN = None
 # (old version, pattern, flags that are on, --date)
 CORPUS = [
+    # ids below 1000 are raised by 1000 BEFORE the successor is taken (9 -> 1010, 99 -> 1100, 999 -> 22000: no overflow at all-nines)
+    ("2020.999", "YYYY.BLD", dict(), "2020-06-01"), ("2020.99", "YYYY.BUILD", dict(), "2020-06-01"), ("v9", "vBLD", dict(), None), ("1.2.999", "MAJOR.MINOR.BUILD", dict(minor=True), None),
+    # a selected part the pattern does not have
+    ("v2020.1001", "vYYYY.BUILD[-TAG]", dict(major=True), "2020-06-01"), ("2020.10.3", "YYYY.MM.PATCH", dict(minor=True, patch=True), "2020-10-05"),
     ("2020.0.1", "YYYY.WW.PATCH", dict(pin_date=True, patch=True), None),            # week 0 must stay 0 under --pin-date
     ("2020.0.1", "YYYY.UU.PATCH", dict(pin_date=True, patch=True), None),
     ("2021.00.7", "YYYY.0W.PATCH", dict(pin_date=True, patch=True), None),
@@ -361,12 +365,19 @@ def run(rep, tier, seed, model_ok=True, effort=1, for_c01=False):
         if code == 0 and new is None:
             rep.violation("exit 0 without announcing a version", input=dict(args=args, out=out), **{"class": "no-announcement"})
         eff_date = nd if (use_date and nd is not None and date_arg == nd.isoformat()) else impl.PINNED_TODAY
+        if code == 0 and new:
+            # a selected part that the pattern does not have cannot be incremented: no version satisfies the request, the command refuses
+            for flag_, part_ in (("major", "MAJOR"), ("minor", "MINOR"), ("patch", "PATCH")):
+                if fl[flag_] and part_ not in pat:
+                    rep.violation("--%s is accepted although the pattern has no %s part (announced %s)" % (flag_, part_, new),
+                                  input=dict(old=old, pattern=pat, flags=fl, date=str(eff_date), new=new), **{"class": "inapplicable-flag"})
+                    break
         if code == 0 and new and info["wf"] and (date_arg is None or (nd is not None and date_arg == nd.isoformat())):
             check_spec(rep, impl, old, pat, fl, eff_date, new)
-        if code != 0 and exc is None and info["wf"] and (date_arg is None or (nd is not None and date_arg == nd.isoformat())) and not (fl["pin_date"] and date_arg):
+        if code != 0 and info["wf"] and (date_arg is None or (nd is not None and date_arg == nd.isoformat())) and not (fl["pin_date"] and date_arg):
             want = expected_success(impl, old, pat, fl, eff_date)
             if want is not None:
-                rep.violation("bump refused although the documented rules give the greater version %r" % want,
+                rep.violation("bump %s although the documented rules give the greater version %r" % ("refused" if exc is None else "crashed (%s)" % type(exc).__name__, want),
                               input=dict(old=old, pattern=pat, flags=fl, date=str(eff_date), new=None), **{"class": "refused"})
         # Coq case
         if date_arg is None:
